@@ -1213,3 +1213,24 @@ func hasQuantile(e Expr) bool {
 	}
 	return false
 }
+
+// InheritSchema adds the metrics, field types, histogram bounds and series the other model knows (without any of its
+// points): a variation of a reference that lacks some points still knows every field that was written.
+func (m *Model) InheritSchema(o *Model) {
+	for k, v := range o.kinds {
+		if m.kinds[k] == nil {
+			m.kinds[k] = map[string]fieldKind{}
+		}
+		for f, kk := range v {
+			m.kinds[k][f] = kk
+		}
+	}
+	for k, v := range o.bounds {
+		if m.bounds[k] == nil {
+			m.bounds[k] = map[float64]bool{}
+		}
+		for b := range v {
+			m.bounds[k][b] = true
+		}
+	}
+}
